@@ -76,11 +76,28 @@ def gen_lit(rng, typ, attr):
     r = rng.random()
     if r < 0.08 and attr in ("min", "max"):
         return {"t": "inf", "neg": attr == "min"}
-    if r < 0.45:
+    if CLUSTER[0] is not None and r < 0.3:
+        base, step = CLUSTER[0]
+        v = base + rng.randint(0, 3) * step
+        return {"t": "real", "v": xj(-v if rng.random() < 0.2 else v)}
+    if r < 0.36:
+        # very small / very large magnitudes (exact: k * 2^-e, k * 2^e + 1/4)
+        k = rng.choice([-7, -3, -1, 1, 2, 3, 5, 7])
+        v = Fraction(k, 2 ** rng.choice([33, 36, 40])) if rng.random() < 0.7 else Fraction(k * 2 ** 30) + Fraction(1, 4)
+        return {"t": "real", "v": xj(v)}
+    if r < 0.6:
         return {"t": "int", "v": rng.randint(-6, 6)}               # Real attribute written as an integer
     return {"t": "real", "v": xj(dy(rng))}
 
 
+# Per case: a cluster (base, step) of long literals that agree in their first six significant digits (CasADi prints
+# constants with six digits) — several attributes of one model draw from it; all values are exact dyadic rationals.
+CLUSTER = [None]
+CLUSTERS = [(Fraction(273) + Fraction(157286, 2 ** 20), Fraction(1, 2 ** 14)),
+            (Fraction(1000000) + Fraction(1, 4), Fraction(1, 4)),
+            (Fraction(1294, 2 ** 20), Fraction(1, 2 ** 33)),
+            (Fraction(5 * 2 ** 30 + 1, 1), Fraction(1, 2))]
+PIECE = [None]       # style "piecewise": the one piecewise-linear operation (abs / max / min) the model uses
 STRICT = [False]     # style "rebuild": only forms CasADi's affinity test accepts (no factor 2 -> OP_TWICE, no q[i])
 
 
@@ -192,6 +209,28 @@ def gen_decl(rng, typ, dims, attr, pars, style):
     n = numel(dims)
     r = rng.random()
     exprs_ok = typ == "Real" and attr != "fixed" and pars
+    if exprs_ok and rng.random() < 0.08:
+        # a coefficient and/or a constant term of very small magnitude: c*p, c*p + d, p*c - d
+        sc = [i for i, p in enumerate(pars) if p["type"] == "Real" and not p["dims"]]
+        if sc:
+            tiny = lambda: {"op": "num", "v": xj(Fraction(rng.choice([-5, -3, 1, 3, 5, 7]), 2 ** rng.choice([33, 36, 40]))), "int": False}
+            par = {"op": "par", "i": rng.choice(sc), "el": None}
+            e = {"op": "mul", "a": tiny(), "b": par} if rng.random() < 0.5 else {"op": "mul", "a": par, "b": tiny()}
+            if rng.random() < 0.5:
+                e = {"op": rng.choice(["add", "sub"]), "a": e, "b": tiny()}
+            return {"k": "expr", "e": e}
+    if exprs_ok and style == "piecewise" and r < 0.25:
+        # everything else in the model is in the strict affine forms; the only non-affine operation is ONE kind of
+        # piecewise-linear function (zero Hessian wherever it is differentiable, not affine)
+        want = dims[0] if len(dims) == 1 else 0
+        a = _force_par(rng, gen_affine(rng, pars, want, 1), pars, want)
+        e = {"op": "abs", "a": a} if PIECE[0] == "abs" else {"op": PIECE[0], "a": a, "b": gen_affine(rng, pars, 0, 1)}
+        r2 = rng.random()
+        if r2 < 0.25:
+            e = {"op": "neg", "a": e}
+        elif r2 < 0.5:
+            e = {"op": "add", "a": e, "b": gen_const(rng)}
+        return {"k": "expr", "e": e}
     if exprs_ok and style == "cubic" and r < 0.3:
         # a monomial of degree >= 3 in the parameters, written with * only and a leading constant (no x*x node -> no
         # OP_SQ, no factor 2 -> no OP_TWICE): every operation is "allowed" and the Hessian vanishes AT p = 0 only
@@ -266,12 +305,16 @@ def gen_decl(rng, typ, dims, attr, pars, style):
 
 
 def gen_case(rng, stream="main"):
-    style = rng.choice(["affine", "rebuild", "rebuild", "bilinear", "cubic", "mixed", "nonaffine", "plain"]) if stream == "main" else "affine"
-    STRICT[0] = style in ("rebuild", "bilinear", "cubic")
+    style = rng.choice(["affine", "rebuild", "rebuild", "bilinear", "cubic", "piecewise", "mixed", "nonaffine", "plain"]) if stream == "main" else "affine"
+    STRICT[0] = style in ("rebuild", "bilinear", "cubic", "piecewise")
+    PIECE[0] = rng.choice(["abs", "abs", "max", "min"]) if style == "piecewise" else None
+    CLUSTER[0] = rng.choice(CLUSTERS) if rng.random() < 0.35 else None
     try:
         return _gen_case(rng, stream, "affine" if style == "rebuild" else style)
     finally:
         STRICT[0] = False
+        CLUSTER[0] = None
+        PIECE[0] = None
 
 
 def _gen_case(rng, stream, style):
@@ -392,7 +435,7 @@ def _gen_case(rng, stream, style):
         pvecs.append(pv)
     if pars and rng.random() < 0.3 and not any(p.get("divisor") for p in pars):
         pvecs[0] = [xj(0)] * len(pvecs[0])
-    if pars and style in ("cubic", "bilinear"):
+    if pars and style in ("cubic", "bilinear", "piecewise"):
         pvecs[-1] = [x if jx(x) != 0 else xj(rng.choice([1, -1, 2, 3, Fraction(1, 2)])) for x in pvecs[-1]]
     return {"stream": stream, "vars": allv, "npar": len(pars), "pvecs": pvecs}
 
